@@ -339,3 +339,57 @@ def gen_defines(rng):
     q.names = list(p.names)
     p.subst = q if all(n in ('k0', 'k1') for n in defs) else None
     return p
+
+
+def gen_scope2(rng):
+    """Resolver2 fragment: the same local name under two parents (a label and a constant), one declared with a literal (statically
+    known), one address-dependent, read by rule bodies / arguments / data through relative (`.v`) and dotted (`a.v`) names,
+    behind a block that only gets its size in pass 2; optionally in a bank of its own and with an #assert.  The instruction's
+    scope is the one the matcher's own walk holds (labels AND constants open a scope)."""
+    import asm2_gen
+    isa = asm_gen.Isa()
+    body = rng.choice(['0x10 @ .v`8', '0x10 @ (.v + 1)`8', '{ assert(.v < 200), 0x10 @ .v`8 }', '0x10 @ .v`8 @ .w`8'])
+    isa.rules.append(dict(m='get', ops=[], prod=body))
+    isa.rules.append(dict(m='ld', ops=[('expr', 'x', rng.choice([None, 'u8']), ('', ''))], prod='0x20 @ x`8'))
+    if rng.chance(0.4):
+        isa.rules.append(dict(m='ld', ops=[('expr', 'x', 'u16', ('', ''))], prod='0x2100 @ x'))
+    p = asm2_gen.Prog2(isa)
+    p.kind = 'scope2'
+    items = []
+    if rng.chance(0.35):
+        items.append(('bankdef', 'bk', dict(bits=rng.choice(['8', '8', '16']), addr=rng.choice(['0', '0x10']), size='0x100', outp='0', fill=False)))
+    k = rng.range(1, 4)
+    items.append(('res', rng.choice(['fwd - fwd + %d', '(fwd > 0 ? %d : 0)']) % k))
+    lit = lambda: str(rng.below(100))
+    dep = lambda: rng.choice(['$', '$ + 1', 'a', 'a + 2', 'fwd - 1'])
+    first_static = rng.chance(0.5)
+
+    def use():
+        c = rng.below(6)
+        if c == 0:
+            return ('instr', 0, [])
+        if c == 1:
+            return ('instr', 1, [rng.choice(['.v', '.v + 1', 'a.v', 'k.v', '.w'])])
+        if c == 2:
+            return ('data', 8, [rng.choice(['.v', 'a.v', 'k.v', '.w'])])
+        if c == 3:
+            return ('instr', 1, [lit()])
+        if c == 4:
+            return ('const', 'u%d' % rng.below(1000), rng.choice(['.v', 'a.v + 1']), 1)
+        return ('instr', 0, [])
+    parents = [('label', 'a', 0), ('const', 'k', rng.choice(['7', '$', 'a'])) + (0,)]
+    if rng.chance(0.5):
+        parents.reverse()
+    for pi, par in enumerate(parents):
+        items.append(par)
+        stat = first_static if pi == 0 else not first_static
+        items.append(('const', 'v', lit() if stat else dep(), 1))
+        items.append(('const', 'w', rng.choice([lit(), dep()]), 1))
+        for _ in range(rng.range(1, 3)):
+            items.append(use())
+    items.append(('label', 'fwd', 0))
+    if rng.chance(0.25):
+        items.append(('assert', rng.choice(['fwd > 0', 'a.v < 300', 'k.v >= 0', 'fwd < 2'])))
+    p.items = items
+    p.names = []
+    return p
